@@ -20,7 +20,7 @@ RULE = ("histories = random interleavings of public operations over a shared poo
         "been mutated in place. Distinct by hash of the op-kind sequence; non-trivial = >=1 operation that takes a container or refines.")
 ASSUMPTIONS = ["generation (fake) is excluded from the determinism re-execution (it draws from the global RNG by design)",
                "Props registries are compared by a shallow identity fingerprint on every access and structurally at quiescent points"]
-TIERS = {"quick": dict(shards=16, cases=96, ops=250), "thorough": dict(shards=16, cases=3000, ops=800)}
+TIERS = {"quick": dict(shards=16, cases=96, ops=250), "thorough": dict(shards=16, cases=1600, ops=600)}
 CASE_TIMEOUT = 600
 
 PROF = Profile(max_depth=2, p_unsat=0.03, p_empty_alphabet=0.0)
@@ -123,6 +123,31 @@ def probes_for(schema, rng):
     except Exception:
         pass
     return vals + GENERIC[:6]
+
+
+def native_model(v):
+    """History-independent model of from_native(v) as a spec (what the result must decode to, whatever ran before)."""
+    import datetime as _dt
+    import uuid as _uuid
+    from ..spec import mk
+    if v is None:
+        return mk("none")
+    for t, k in ((bool, "bool"), (int, "int"), (float, "float"), (str, "str")):
+        if isinstance(v, t):
+            return {"k": k, "value": v}
+    if isinstance(v, list):
+        return {"k": "list", "form": "elems", "elems": [native_model(x) for x in v]}
+    if isinstance(v, dict):
+        return {"k": "dict", "keys": [(k, native_model(x), False) for k, x in v.items()]}
+    if isinstance(v, bytes):
+        return {"k": "bytes", "value": v}
+    if isinstance(v, _uuid.UUID):
+        return {"k": "uuid4", "value": v}
+    if isinstance(v, _dt.datetime):
+        return {"k": "datetime", "value": v}
+    if isinstance(v, _dt.date):
+        return {"k": "date", "value": v}
+    raise ValueError(v)
 
 
 def struct_copy(v, depth=0):
@@ -307,7 +332,7 @@ def step(h, i):
 
     def plain_value(depth=2):
         from ..props.C14 import gen_plain
-        return gen_plain(rng, depth)
+        return gen_plain(rng, depth, big=False)
     if r < 0.08 or len(h.pool) < 6:
         spec = gen_spec(rng, PROF)
         s = O.try_build(h.ctx, spec)
@@ -394,6 +419,14 @@ def step(h, i):
         v = plain_value(3)
         out = h.run("from_native", lambda v=v: from_native(v), args=[v], desc=f"from_native({enc(v)!r})"[:160], replayable=False)
         if out[0] == "ok":
+            # the result must be a function of the argument alone, whatever was executed before
+            try:
+                h.ctx.count("from_native_model_checks")
+                if not dec.spec_eq(dec.decode(out[1]), dec.normalise(native_model(v))):
+                    h.ctx.violation("result_depends_on_history_or_differs_from_argument:from_native", {
+                        "value": enc(v), "result": repr(out[1])[:300], "history_tail": list(h.ctx._tail)})
+            except (dec.DecodeError, ValueError):
+                pass
             h.add(out[1], "from_native")
             operands.append(h.pool[-1])
             if mutate_value(rng, v):
